@@ -78,6 +78,16 @@ theorem ITEM_LOOSE_suppressed (cfg : RCfg) (st : RState) (bs : List Block) (h : 
     (renderBlock cfg st (.item bs)).1 = (renderBlocks cfg { st with suppress := false } bs).1 := by
   simp [renderBlock, h, hs]
 
+/-- ITEM_FIRST_IN_CONTAINER: in a loose list, an item that starts on the first line of its container
+(the first-line prefix — an enclosing item's marker, a footnote label — has not been used yet) is
+written without a separator line in front of it, whatever the suppress flag said. -/
+theorem ITEM_FIRST_IN_CONTAINER (cfg : RCfg) (st : RState) (o : Bool) (s : Nat) (b : Str) (i : Nat)
+    (bs : List Block) (rest : List Block) (h : st.listTight = false) (hp : st.pfx ≠ st.snd) :
+    (renderBlocks cfg { st with pfx := st.pfx ++ (itemPrefix o s i b).1, snd := st.snd ++ (itemPrefix o s i b).2,
+                                suppress := false } bs).1 <+: (renderItems cfg st o s b i (.item bs :: rest)).1 := by
+  have hc : (¬st.pfx = st.snd ∨ st.suppress = true) := Or.inl hp
+  simp [renderItems, renderBlock, h, hp, hc]
+
 /-- MODE: which tightness a list's items are rendered with. -/
 theorem MODE_loose (cfg : RCfg) (st : RState) (o : Bool) (s : Nat) (b : Str) (t : Bool) (items : List Block)
     (h : cfg.spacing = .loose) :
